@@ -157,6 +157,7 @@ enum RK {
   RK_DATA_MIXED,      // answer carries both A and AAAA + unrelated RR
   RK_DATA_MULTI,      // three records of the asked type with ttls 100,50,7
   RK_DATA_SOA,        // one record of the asked type, ttl 100, plus an authority SOA with ttl 10 (a TTL shorter than the entry's lifetime)
+  RK_NOTAUTH,         // rcode 9 (an error rcode beyond the classic 0..5) carrying one record of the asked type, ttl 100
   RK_NKINDS
 };
 extern const char *rk_names[];
@@ -164,7 +165,7 @@ extern const char *rk_names[];
 enum Forge { FG_WRONGID = 0, FG_WRONGNAME, FG_WRONGTYPE, FG_WRONGCLASS, FG_CASEFLIP, FG_WRONGSRC, FG_OTHERSOCK, FG_NOCOOKIE, FG_BADCLIENTCOOKIE, FG_WRONGSRC_FRAMED, FG_NKINDS };
 extern const char *fg_names[];
 
-enum FaultSite { FS_SOCKET = 0, FS_SETSOCKOPT, FS_BIND, FS_CONNECT, FS_GETSOCKNAME, FS_SEND_REFUSED, FS_SEND_WOULDBLOCK, FS_SEND_SHORT, FS_RECV_RESET, FS_NSITES };
+enum FaultSite { FS_SOCKET = 0, FS_SETSOCKOPT, FS_BIND, FS_CONNECT, FS_GETSOCKNAME, FS_SEND_REFUSED, FS_SEND_WOULDBLOCK, FS_SEND_SHORT, FS_RECV_RESET, FS_SEND_EINTR, FS_RECV_EINTR, FS_NSITES };
 extern const char *fs_names[];
 
 // ------------------------------------------------------------------ records
